@@ -468,6 +468,8 @@ def c06_excluded(f, a, g, b):
         return True          # the merge event steps outside integrate(): cadence lags by construction
     if any(e == "lrescale" for e in evs) and roles is not None and roles != "variational":
         return True          # lrescale exists only with a variational configuration
+    if roles == "variational" and d.get("prev") in ("mercurius", "trace"):
+        return True          # the gravity routine stays "mercurius"/"trace" after the switch; variational equations need basic gravity
     if d.get("prev") is not None and d.get("prev") == integ:
         return True          # "previous integrator" = another integrator
     if d.get("eventA") == "n_to_zero" and d.get("eventB") == "remove":
